@@ -87,6 +87,30 @@ def r1(run):
                    ".%s is appended on the %s arm of running the closure" % (k, "success" if k == "complete" else "failure"), reason="wrong-terminal-event")
         for a in recv:
             run.ob(MOD + "::execute_command|worker|recv-on-success-arm", bool(ok_e) and q.dominated(w, a.call.bb, via_edges=ok_e), a.call.sp, "recv frames only on the success arm")
+    # the worker's own Err (and a panic of the blocking task) reaches execute_command's caller: `.await??`
+    ec = None
+    for b in run.facts.bodies_under(MOD + "::execute_command"):
+        if b.is_coroutine and q.live_calls(b, C.TOKIO_SPAWN_BLOCKING):
+            ec = b
+    if ec is None:
+        run.missing(MOD + "::execute_command|body", "execute_command (spawn_blocking) not found")
+    else:
+        run.touch(ec)
+        for sb in q.live_calls(ec, C.TOKIO_SPAWN_BLOCKING):
+            layers = []
+            for bb, si in ec.switches():
+                cond = strip(si["cond"])
+                if si["kind"] == "variant" and cond[0] == "call" and cond[1].fn.endswith("Try::branch") and any(q.same_call(cc, sb) for cc in q.calls_in(cond)):
+                    brk = [(bb, t, lab) for (t, lab, m) in si["edges"] if (set(m) if isinstance(m, tuple) else {m}) == {"Break"}]
+                    to_err = False
+                    for (_, t, _) in brk:
+                        reach = ec.reachable_blocks([t])
+                        to_err = to_err or any(rb in reach and strip(e)[0] == "call" and strip(e)[1].fn.endswith("from_residual") for (rb, e, raw) in ec.return_defs())
+                    if to_err:
+                        layers.append(bb)
+            run.ob(MOD + "::execute_command|worker-result-propagated", len(layers) >= 2, sb.sp,
+                   "both the join error and the worker's own Err are propagated to the caller (%d `?` layer(s) on the awaited task): a failure before the terminal event is never swallowed" % len(layers),
+                   reason="call-without-terminal-event")
     # dispatcher: Err from execute_command => exactly one .error
     for b in run.facts.closures_under(MOD + "::serve"):
         ex = [c for c in b.calls() if c.bb in b.live_blocks() and c.fn == MOD + "::execute_command"]
@@ -135,6 +159,9 @@ def r2(run):
         ttl = a.setters.get("ttl")
         run.ob(MOD + "::execute_command|worker|recv-ttl", ttl is not None and any(y[0] == "field" and "return_options" in str(y[2]) for y in walk(ttl)), a.call.sp,
                "recv ttl comes from the definition's return options", reason="command-frame-shape")
+        srcs = F.content_sources(a.setters.get("hash"), run.facts)
+        run.ob(MOD + "::execute_command|worker|recv-content", bool(srcs) and all(c.fn.startswith("xs::store::Store::cas_insert") for c in srcs), a.call.sp,
+               "each recv frame references the CAS entry of the value it reports (%s)" % [c.fn.split("::")[-1] for c in srcs], reason="command-output-lost")
     # the unbuffered .append handed to the closure: call's context + base stamps
     ctor = [c for c in w.calls() if c.bb in w.live_blocks() and c.fn == "xs::nu::commands::append_command::AppendCommand::new"]
     run.exact("unbuffered AppendCommand constructions in the worker", len(ctor), 1, w.sp)
@@ -152,6 +179,12 @@ def r2(run):
                 ok = m is not None and any(y[0] == "field" and y[2] == "base_meta" for y in walk(m))
                 run.ob("xs::nu::commands::append_command::AppendCommand::run|meta-from-base", ok, a.call.sp, "appended meta starts from self.base_meta (user meta merged into it)",
                        reason="unstamped-command-frame")
+                srcs = F.content_sources(a.setters.get("hash"), run.facts)
+                run.ob("xs::nu::commands::append_command::AppendCommand::run|content", bool(srcs) and all(c.fn.endswith("write_pipeline_to_cas") for c in srcs), a.call.sp,
+                       "an explicit .append references the CAS entry of the piped-in content (%s)" % [c.fn.split("::")[-1] for c in srcs], reason="append-argument-dropped")
+                t = a.setters.get("ttl")
+                flagged = t is not None and any(y[0] == "call" and y[1].fn.endswith(("::get_flag", "::opt", "::req")) and "ttl" in q.const_strs(y[2][-1]) for o in list(q.origins(t)) + [t] for y in walk(o))
+                run.ob("xs::nu::commands::append_command::AppendCommand::run|ttl", flagged, a.call.sp, "and carries the script's --ttl argument", reason="append-argument-dropped")
 
 
 def r3(run):
